@@ -311,7 +311,7 @@ def run(ctx):
                     r = (k[0] + rnd.choice([0, 1, k[0] - 1]), nb * k[0] + rnd.choice([0, 1, k[0] - 1]))
                     if r[0] <= r[1]: cases.append(split_case(k, r, k[2], cov))
     # real constants: long profiles with one or two valleys at every position relative to min_bins and to the last bin
-    nlong = 0
+    nlong = 0; long_cases = []
     for total in (1, 2, 127, 128, 129, 130, 131, 200, 257, 258, 259, 300):
         for v1 in sorted(set([total - 1, total - 2, total - 3, 126, 127, 128, 129, 130, 255, 256, 257, 258]) & set(range(total))):
             for depth, low in ((300, 1), (300, 3), (300, 4), (5, 1), (5, 2), (2000, 20), (2000, 21)):
@@ -322,12 +322,15 @@ def run(ctx):
                     for o1 in (0, 1, 255):
                         r = (first * B + rnd.choice([0, 1, 77]), (first + total - 1) * B + o1)
                         if r[0] > r[1]: r = (first * B, r[1])                  # a genomic region is never inverted
-                        cases.append(split_case(REAL, r, 1024, cov)); nlong += 1
+                        long_cases.append(split_case(REAL, r, 1024, cov)); nlong += 1
     ctx.rule("split_coverage_regions: EVERY coverage profile over 1..%d bins with values {0,1,2,300} x region start/end offsets {0,1,255} to the bin grid (MAX_REGION_LEN=3*256, MIN_READS_TO_SPLIT=4), "
              "five other scalings (region length not a multiple of the bin, bin 16, other valley thresholds) over <= 5 bins, and %d profiles at the real constants with valleys at 126..130, 255..258 bins and on the last three bins; "
              "non-trivial = more than one sub-region" % (6 if quick else 8, nlong))
     mism, viol = ctx.corr("split_coverage_regions", PRE_SPLIT, cases, shard=1500, nontrivial=lambda o: not isinstance(o["impl"], tuple) and len(o["impl"]) > 1)
     ctx.corr_report("split_coverage_regions", mism, viol, keyfn=split_key)
+    # the long profiles are the expensive ones to evaluate: small shards so that all coqc workers share them
+    mism, viol = ctx.corr("split_coverage_regions(real constants)", PRE_SPLIT, long_cases, shard=125, nontrivial=lambda o: not isinstance(o["impl"], tuple) and len(o["impl"]) > 1)
+    ctx.corr_report("split_coverage_regions(real constants)", mism, viol, keyfn=split_key)
     ctx.exhaustive = False
 
     # ---- 2. process() + forward_alignments + both storages on fake alignments, every placement on a bin grid (scaled constants)
@@ -433,7 +436,7 @@ def run(ctx):
     for n in range(0, 5 if quick else 6):
         combos = itertools.product(range(len(variants)), repeat=n)
         if n >= 4:
-            combos = list(combos); combos = rnd.sample(combos, min(len(combos), 4000 if quick else 30000))
+            combos = list(combos); combos = rnd.sample(combos, min(len(combos), 2500 if quick else 30000))
         for combo in combos:
             # assignment_indices as the callers pass them: all positions, and (select_best_assignment hands over the positions of ONE priority
             # class) proper sub-lists / permuted sub-lists, where the position inside assignment_indices differs from the assignment index
@@ -511,11 +514,11 @@ def make_world(rnd, seed):
     genes.append(("chrF", "GF", "+", [(3001, 4200)]))
     # chrD: a read whose primary alignment spans a sub-region border (two exons 40 kb apart, coverage valley in the intron: processed in both sub-regions,
     # two identical records that find_duplicates must reduce to one) and that has a secondary alignment in an upstream gene-free locus, so that the
-    # per-read list holds a record of a worse class BEFORE the two copies (the copies' indices differ from their positions in the index list)
+    # per-read list holds a record of a worse class BEFORE the two copies (the copies' indices differ from their positions in the index list);
+    # it must stay the only alignment across the intron: coverage 1 there is the valley (ABS_COV_VALLEY) at which the 40-kb locus is cut
     c = chrom("chrD", 70000)
     read(c, "dspan", 2000, 0, flag=256, mapq=0, cigar=[(0, 300), (3, 200), (0, 300), (3, 200), (0, 300)])
     read(c, "dspan", 10000, 0, cigar=[(0, 500), (3, 39500), (0, 500)])
-    read(c, "dspan2", 10000, 0, cigar=[(0, 500), (3, 39500), (0, 500)])          # control: only the two copies
     for i, (s0, ln) in enumerate(((10020, 460), (50010, 480), (10100, 400))): read(c, "dshort%d" % i, s0, ln)
     genes.append(("chrD", "GD", "+", [(10001, 10500), (50001, 50500)]))
     # chrQ: MAPQ exactly at / one below / one above the values used with an explicit --min_mapq (3 and 20), inside an annotated gene (exact matches of
